@@ -382,9 +382,14 @@ class Controller(object):
                 rvec_list, obj_list, num_samples_run, exit_info, eval_num = eval_obj_results[ndirns]
                 # Handle exit conditions (f < min obj value or maxfun reached)
                 if exit_info is not None:
-                    if num_samples_run > 0:
-                        self.model.save_point(x, np.mean(rvec_list[:num_samples_run, :], axis=0), num_samples_run, eval_num,
-                                              x_in_abs_coords=True)
+                    # Every point has been evaluated already: offer this one and all later ones to the saved-point slot
+                    # (which keeps the best), so that no evaluated point is lost
+                    for later in range(ndirns, num_directions):
+                        x = self.model.as_absolute_coordinates(xopt + dirns[later, :])
+                        rvec_list, obj_list, num_samples_run, _, eval_num = eval_obj_results[later]
+                        if num_samples_run > 0:
+                            self.model.save_point(x, np.mean(rvec_list[:num_samples_run, :], axis=0), num_samples_run, eval_num,
+                                                  x_in_abs_coords=True)
                     return exit_info  # return & quit
 
                 # Otherwise, add new results (increments model.npt_so_far)
